@@ -78,6 +78,7 @@ JudgeVerify(e) ==
       \* for a bit flip in the RLP payload the flipped byte (before>after) is part of the class,
       \* and so is the pool context unless the pool is empty
       who == e.kind \o ":" \o e.mut \o (IF e.edflip = "" THEN "" ELSE ":" \o e.edflip)
+                   \o (IF e.kind = "eth" /\ tx.ed.dmg = "reframe" THEN ":item" \o ToString(tx.ed.item) ELSE "")
                    \o (IF e.ctx = "empty" THEN "" ELSE ":" \o e.ctx)
       pool == PoolOf(e.ctx, e.base, tx, e.h)
   IN  Tag(~e.panic /\ ~e.first.panic, "Inv.Total.panic:" \o e.kind) \o
